@@ -28,6 +28,7 @@ import (
 	"fmt"
 	"net"
 	"net/netip"
+	"slices"
 	"sort"
 	"strconv"
 	"strings"
@@ -424,6 +425,7 @@ type c30Gen struct {
 	// known findings whose signature is excluded from generation
 	knownIPPort bool
 	excluded    map[string]bool
+	bigRules    map[*proto.Rule]bool // rules carrying a long (chunked) list
 }
 
 func (g *c30Gen) subset(label string, voc []string, max int) []string {
@@ -456,18 +458,56 @@ func (g *c30Gen) nets(label string, pct int) []string {
 
 // bigNets: more CIDRs than fit one HNS rule (4000); the interesting members sit at drawn positions so
 // that they land in different chunks.
+// Sizes of long lists: around one and two times the per-rule chunk (4000 entries), exact multiples
+// drawn more often.
+var c30LongSizes = []int{3999, 4000, 4000, 4001, 7999, 8000, 8000, 8001}
+
+const c30Long = 3999 // a list at least this long counts as "long" (reaches the chunk boundary)
+
+func (g *c30Gen) longSize(label string) int {
+	n := rapid.SampledFrom(c30LongSizes).Draw(g.t, label+"LongSize")
+	g.classes[fmt.Sprintf("long-list-%d", n)] = true
+	if n%4000 == 0 {
+		g.classes["long-list-exact-multiple-of-chunk"] = true
+	}
+	return n
+}
+
+// bigNets: a CIDR list of exactly longSize entries; the interesting members sit at drawn positions so
+// that they land in different chunks.
 func (g *c30Gen) bigNets(label string) []string {
-	n := rapid.IntRange(4001, 4100).Draw(g.t, label+"BigN")
-	out := make([]string, 0, n+3)
-	for i := 0; i < n; i++ {
+	n := g.longSize(label)
+	extras := g.subset(label+"BigExtra", c30CIDRs, 3)
+	out := make([]string, 0, n)
+	for i := 0; i < n-len(extras); i++ {
 		out = append(out, fmt.Sprintf("10.2.%d.%d/32", i>>8, i&255))
 	}
-	for _, extra := range g.subset(label+"BigExtra", c30CIDRs, 3) {
+	for _, extra := range extras {
 		pos := rapid.SampledFrom([]int{0, 3999, 4000, len(out)}).Draw(g.t, label+"BigPos")
+		pos = min(pos, len(out))
 		out = append(out[:pos:pos], append([]string{extra}, out[pos:]...)...)
 	}
 	g.classes["split-addresses"] = true
 	return out
+}
+
+// bigSet creates (once per case) an IP set of exactly longSize distinct members.
+func (g *c30Gen) bigSet() string {
+	const id = "ipsbig"
+	if _, ok := g.sets[id]; ok {
+		return id
+	}
+	n := g.longSize("ipSet")
+	members := make([]string, 0, n)
+	if rapid.Bool().Draw(g.t, "bigSetHasKnownIP") {
+		members = append(members, "10.0.0.1")
+	}
+	for i := 0; len(members) < n; i++ {
+		members = append(members, fmt.Sprintf("10.2.%d.%d", i>>8, i&255))
+	}
+	g.sets[id] = members
+	g.classes["split-ipset"] = true
+	return id
 }
 
 func (g *c30Gen) ports(label string) []*proto.PortRange {
@@ -489,20 +529,29 @@ func (g *c30Gen) ports(label string) []*proto.PortRange {
 }
 
 func (g *c30Gen) bigPorts(label string) []*proto.PortRange {
-	n := rapid.IntRange(4001, 4050).Draw(g.t, label+"BigN")
-	out := make([]*proto.PortRange, 0, n+5)
-	for i := 0; i < n; i++ {
+	n := g.longSize(label)
+	extras := g.ports(label + "BigExtra")
+	out := make([]*proto.PortRange, 0, n)
+	for i := 0; i < n-len(extras); i++ {
 		p := int32(10000 + 2*i) // non-adjacent singles
 		out = append(out, &proto.PortRange{First: p, Last: p})
 	}
-	g.usedPort[10000], g.usedPort[10001], g.usedPort[10000+2*3999], g.usedPort[10000+2*4000] = true, true, true, true
-	for _, extra := range g.ports(label + "BigExtra") {
+	g.usedPort[10001] = true
+	for _, k := range c30ChunkEdges {
+		if k < n-len(extras) {
+			g.usedPort[int32(10000+2*k)] = true
+		}
+	}
+	for _, extra := range extras {
 		pos := rapid.SampledFrom([]int{0, 3999, 4000, len(out)}).Draw(g.t, label+"BigPos")
+		pos = min(pos, len(out))
 		out = append(out[:pos:pos], append([]*proto.PortRange{extra}, out[pos:]...)...)
 	}
 	g.classes["split-ports"] = true
 	return out
 }
+
+var c30ChunkEdges = []int{0, 3999, 4000, 7999, 8000}
 
 func (g *c30Gen) rule(inbound bool, allowBig bool) *proto.Rule {
 	g.nRule++
@@ -541,7 +590,8 @@ func (g *c30Gen) rule(inbound bool, allowBig bool) *proto.Rule {
 	r.Protocol = pc.p
 	big := 0
 	if allowBig && g.big {
-		big = rapid.IntRange(1, 4).Draw(g.t, "bigField")
+		big = rapid.IntRange(1, 6).Draw(g.t, "bigField")
+		g.bigRules[r] = true
 	}
 	// A rule with a split list carries few other criteria so that it decides connections often.
 	bare := big != 0 && rapid.IntRange(0, 3).Draw(g.t, "bigBare") != 0
@@ -555,7 +605,12 @@ func (g *c30Gen) rule(inbound bool, allowBig bool) *proto.Rule {
 	} else if !bare {
 		r.DstNet = g.nets("dstNet", 20)
 	}
-	if len(g.sets) > 0 && !bare {
+	if big == 5 {
+		r.SrcIpSetIds = []string{g.bigSet()}
+	} else if big == 6 {
+		r.DstIpSetIds = []string{g.bigSet()}
+	}
+	if len(g.sets) > 0 && !bare && big < 5 {
 		ids := c30SortedKeys(g.sets)
 		if rapid.IntRange(0, 6).Draw(g.t, "useSrcSet") == 0 {
 			r.SrcIpSetIds = []string{rapid.SampledFrom(ids).Draw(g.t, "srcSet")}
@@ -649,13 +704,12 @@ func (sc *c30Scenario) refRule(t c30TB, r *proto.Rule, inbound bool) *c30RefRule
 	}
 	if len(r.SrcNet) > 0 {
 		rr.hasSrcNets, rr.srcNets = true, c30V4Prefixes(t, r.SrcNet)
-		rr.fromBig = rr.fromBig || len(r.SrcNet) > 4000
 	}
 	if len(r.DstNet) > 0 {
 		rr.hasDstNets, rr.dstNets = true, c30V4Prefixes(t, r.DstNet)
-		rr.fromBig = rr.fromBig || len(r.DstNet) > 4000
 	}
-	rr.fromBig = rr.fromBig || len(r.SrcPorts) > 4000 || len(r.DstPorts) > 4000
+	rr.fromBig = len(r.SrcNet) >= c30Long || len(r.DstNet) >= c30Long || len(r.SrcPorts) >= c30Long || len(r.DstPorts) >= c30Long ||
+		(len(r.SrcIpSetIds) > 0 && len(sc.sets[r.SrcIpSetIds[0]]) >= c30Long) || (len(r.DstIpSetIds) > 0 && len(sc.sets[r.DstIpSetIds[0]]) >= c30Long)
 	if len(r.SrcIpSetIds) > 0 {
 		rr.hasSrcSet, rr.srcSet = true, c30V4Prefixes(t, sc.sets[r.SrcIpSetIds[0]])
 	}
@@ -1102,7 +1156,7 @@ const c30SigIPPort = "ipportset-with-other-criteria"
 func TestVerifC30WindowsFlattening(t *testing.T) {
 	ev.Quiet()
 	rec := ev.New("C30", "windataplane",
-		"<=3 tiers (any position of the 'default' tier, end-of-tier Deny/Pass) x <=5 policies + <=2 profiles of supported rules only (allow/deny/pass/next-tier/log; protocol by name/number; src/dst CIDR lists incl. v6 members that are filtered and lists >4000 entries; src/dst IP sets incl. empty and v6 members; egress ip-port sets; src/dst port lists incl. >4000 entries, only with tcp/udp/sctp), fed through the real policyManager, Windows IP set cache and endpointManager; 1-3 endpoints share one PolicySets/endpointManager (same policy pool and tier order, own policy subsets), are rendered in a drawn order and partly re-rendered, and after every render the rendered endpoint is checked against its own layout; every connection of a boundary grid (direction x 3 local IPs x 7 remote IPs x 5 protocols x boundary ports of the ports used) is evaluated. Non-trivial = for some connection the reference verdict was decided by a rule in a later list after a pass (pass rule or end-of-tier pass) AND both Allow and Block verdicts occur; distinct = distinct tier/policy/rule-action shape",
+		"<=3 tiers (any position of the 'default' tier, end-of-tier Deny/Pass) x <=5 policies + <=2 profiles of supported rules only (allow/deny/pass/next-tier/log; protocol by name/number; src/dst CIDR lists incl. v6 members that are filtered and lists of 3999/4000/4001/7999/8000/8001 entries (the per-rule chunk is 4000); IP sets of those sizes; src/dst IP sets incl. empty and v6 members; egress ip-port sets; src/dst port lists incl. those sizes, only with tcp/udp/sctp), fed through the real policyManager, Windows IP set cache and endpointManager; 1-3 endpoints share one PolicySets/endpointManager (same policy pool and tier order, own policy subsets), are rendered in a drawn order and partly re-rendered, and after every render the rendered endpoint is checked against its own layout; every connection of a boundary grid (direction x 3 local IPs x 7 remote IPs x 5 protocols x boundary ports of the ports used) is evaluated. Non-trivial = for some connection the reference verdict was decided by a rule in a later list after a pass (pass rule or end-of-tier pass) AND both Allow and Block verdicts occur; distinct = distinct tier/policy/rule-action shape",
 		"HNS semantics as read from the code comments: lowest priority number among matching Switch rules decides; equal-priority matches with different actions are ambiguous; no match = Block; RuleType Host rules are not switch ACLs",
 		"the lists that are flattened are those endpoint_mgr.go assembles (tiers with policies in the direction; profiles appended iff no tier applies or the 'default' tier has no policies in that direction); pass out of the last list = Block as documented in flattenTiers",
 		"endpointManager.hostAddrs is cleared so that the separate allow-host-to-endpoint rule (priority 900) does not take part",
@@ -1112,7 +1166,7 @@ func TestVerifC30WindowsFlattening(t *testing.T) {
 	knownIPPort := ev.Known(c30SigIPPort)
 	rapid.Check(t, func(t *rapid.T) {
 		g := &c30Gen{t: t, sets: map[string][]string{}, ipp: map[string][]string{}, classes: map[string]bool{}, usedPort: map[int32]bool{},
-			knownIPPort: knownIPPort, excluded: map[string]bool{}}
+			knownIPPort: knownIPPort, excluded: map[string]bool{}, bigRules: map[*proto.Rule]bool{}}
 		v := rapid.IntRange(0, 999).Draw(t, "bigCase")
 		g.big = v >= 300 && v < 400
 		sc := &c30Scenario{sets: g.sets, ipp: g.ipp}
@@ -1150,7 +1204,7 @@ func TestVerifC30WindowsFlattening(t *testing.T) {
 				n := rapid.IntRange(0, 4).Draw(t, "nRules")
 				for j := 0; j < n; j++ {
 					r := g.rule(dir == 0, bigLeft > 0)
-					if len(r.SrcNet) > 4000 || len(r.DstNet) > 4000 || len(r.SrcPorts) > 4000 || len(r.DstPorts) > 4000 {
+					if g.bigRules[r] {
 						bigLeft--
 					}
 					if dir == 0 {
@@ -1289,11 +1343,11 @@ func TestVerifC30WindowsFlattening(t *testing.T) {
 		sort.Ints(sc.portCands)
 		maxPorts := 7
 		if g.big {
-			maxPorts = 4
+			maxPorts = 5
 		}
 		for tries := 0; len(sc.portCands) > maxPorts; tries++ {
 			i := rapid.IntRange(0, len(sc.portCands)-1).Draw(t, "dropPortCandidate")
-			if p := sc.portCands[i]; g.big && tries < 50 && (p == 10000+2*3999 || p == 10000+2*4000) {
+			if p := sc.portCands[i]; g.big && tries < 50 && p >= 10000 && (p-10000)%2 == 0 && slices.Contains(c30ChunkEdges[1:], (p-10000)/2) {
 				continue // keep the ports on either side of the chunk boundary of a split port list
 			}
 			sc.portCands = append(sc.portCands[:i], sc.portCands[i+1:]...)
@@ -1336,6 +1390,75 @@ func TestVerifC30WindowsFlattening(t *testing.T) {
 			return map[string]any{"input": strings.Split(sc.describe(), "\n"), "connections": oc.nConns, "hns_rules": oc.nFinal}
 		}, c30SortedKeys(g.classes)...)
 	})
+}
+
+// ---------------------------------------------------------------------------------------
+// The list splitters on their own: whatever the chunk size, the chunks are the list.
+
+func TestVerifC30WindowsFlatteningSplitLists(t *testing.T) {
+	ev.Quiet()
+	rec := ev.New("C30", "split-lists",
+		"policysets.SplitIPList / SplitPortList with chunk sizes 1..6 and 4000 on lists whose length is 0, 1, k*chunk-1, k*chunk, k*chunk+1 (k=1,2,3) or arbitrary; reference: concatenating the chunks gives the list back, every chunk holds 1..chunk entries, and the empty list gives exactly one empty chunk (an empty chunk renders as an unconstrained HNS field, so it must not appear otherwise). Non-trivial = length is a non-zero exact multiple of the chunk size or the list is empty; distinct = (chunk, length)")
+	defer rec.Write()
+	rapid.Check(t, func(t *rapid.T) {
+		chunk := rapid.SampledFrom([]int{1, 2, 3, 4, 5, 6, 4000}).Draw(t, "chunk")
+		var n int
+		switch rapid.IntRange(0, 3).Draw(t, "lengthKind") {
+		case 0:
+			n = rapid.IntRange(0, 3*chunk+2).Draw(t, "length")
+		default:
+			k := rapid.IntRange(0, 3).Draw(t, "k")
+			n = max(0, k*chunk+rapid.IntRange(-1, 1).Draw(t, "delta"))
+		}
+		ips := make([]string, n)
+		ports := make([]*proto.PortRange, n)
+		for i := range ips {
+			ips[i] = fmt.Sprintf("10.3.%d.%d", i>>8, i&255)
+			ports[i] = &proto.PortRange{First: int32(i + 1), Last: int32(i + 1)}
+		}
+		ipChunks := policysets.SplitIPList(ips, chunk)
+		var back []string
+		for ci, c := range ipChunks {
+			if len(c) > chunk || (len(c) == 0 && n != 0) {
+				t.Fatalf("C30 violation: SplitIPList(%d entries, chunk %d): chunk #%d has %d entries (chunk sizes %v); an empty chunk is an unconstrained address field", n, chunk, ci, len(c), c30ChunkLens(ipChunks))
+			}
+			back = append(back, c...)
+		}
+		if !slices.Equal(back, ips) || (n == 0 && len(ipChunks) != 1) {
+			t.Fatalf("C30 violation: SplitIPList(%d entries, chunk %d) does not reassemble to the list: chunk sizes %v", n, chunk, c30ChunkLens(ipChunks))
+		}
+		portChunks := policysets.SplitPortList(ports, chunk)
+		var backP []*proto.PortRange
+		var lens []int
+		for _, c := range portChunks {
+			lens = append(lens, len(c))
+		}
+		for ci, c := range portChunks {
+			if len(c) > chunk || (len(c) == 0 && n != 0) {
+				t.Fatalf("C30 violation: SplitPortList(%d entries, chunk %d): chunk #%d has %d entries (chunk sizes %v); an empty chunk is an unconstrained port field", n, chunk, ci, len(c), lens)
+			}
+			backP = append(backP, c...)
+		}
+		if !slices.Equal(backP, ports) || (n == 0 && len(portChunks) != 1) {
+			t.Fatalf("C30 violation: SplitPortList(%d entries, chunk %d) does not reassemble to the list: chunk sizes %v", n, chunk, lens)
+		}
+		cls := "length-other"
+		switch {
+		case n == 0:
+			cls = "length-0"
+		case n%chunk == 0:
+			cls = "length-exact-multiple-of-chunk"
+		}
+		rec.SizedCase(n == 0 || n%chunk == 0, fmt.Sprintf("%d/%d", chunk, n), n, func() any { return map[string]int{"chunk": chunk, "length": n} }, cls)
+	})
+}
+
+func c30ChunkLens(chunks [][]string) []int {
+	var out []int
+	for _, c := range chunks {
+		out = append(out, len(c))
+	}
+	return out
 }
 
 // ---------------------------------------------------------------------------------------
